@@ -107,9 +107,28 @@ def top_nocast(e):
     return e
 
 
-def calls(e):
-    """all call expressions inside e (pre-order)"""
-    return [x for x in walk(e) if x[0] == 'call']
+def calls(e, raw=False):
+    """all call expressions inside e (pre-order). Unless raw, the memcpy/header_init
+    scaffolding of `$(T, ...)` stack-object expansions is not reported (the
+    field initialisers inside them still are)."""
+    if raw:
+        return [x for x in walk(e) if x[0] == 'call']
+    out = []
+
+    def visit(x):
+        if not is_expr(x):
+            return
+        if x[0] == 'call':
+            st = as_stack(x)
+            if st is not None:
+                for f in st[1]:
+                    visit(f)
+                return
+            out.append(x)
+        for c in children(x):
+            visit(c)
+    visit(e)
+    return out
 
 
 def callee_name(c):
@@ -272,9 +291,9 @@ def all_exprs(body):
             yield e, s['line']
 
 
-def all_calls(body):
+def all_calls(body, raw=False):
     for e, ln in all_exprs(body):
-        for c in calls(e):
+        for c in calls(e, raw):
             yield c, ln
 
 
